@@ -18,7 +18,13 @@ OUT_ERR_ENUM = {"quick": 10, "thorough": None}  # None = every k
 def _case(seed, i):
     kind = FS.KINDS[i % len(FS.KINDS)]
     s = core.run_seed(seed, "c12-fault", i)
-    return FS.make_case(core.stream(s, "case"), s, kind=kind)
+    case = FS.make_case(core.stream(s, "case"), s, kind=kind)
+    if kind == "in_corrupt":
+        # stratified: every block of the file and every corruption kind gets its turn
+        j = i // len(FS.KINDS)
+        case["fault"]["block"] = FS.GEQDSK_BLOCKS[(j + seed) % len(FS.GEQDSK_BLOCKS)]
+        case["fault"]["what"] = FS.CORRUPTIONS[(j // 2 + seed) % len(FS.CORRUPTIONS)]
+    return case
 
 
 def _fault_job(case):
@@ -98,7 +104,7 @@ def phase_faults(rep, tier, seed):
         oc = r["outcome"][0]
         table[f"{kind}:{oc}"] += 1
         cn = r["counters"]
-        if cn.get("in_fault_fired"):
+        if cn.get("in_fault_fired") or cn.get("in_corrupt_fired"):
             fired[kind] += 1
         if cn.get("out_err_fired"):
             fired["out_err"] += 1
@@ -108,8 +114,8 @@ def phase_faults(rep, tier, seed):
                     fired[f"{src}.{k}"] += v
         if kind in ("git", "opt_unknown", "opt_invalid", "opt_inconsistent", "envelope"):
             fired[kind] += 1
-        if cn.get("undecided_runaway"):
-            fired["undecided_runaway"] += 1
+        if cn.get("runaway"):
+            fired["runaway"] += 1
         sim_time += r.get("sim_time_us") or 0
         sigs.add((kind, c["entry"], c.get("geometry"), oc, r["outcome"][1],
                   core.digest_of(c["fault"], 6)))
